@@ -724,6 +724,13 @@ fn dump(tcx: TyCtxt<'_>, out_dir: &str, kind_tag: &str) {
             }
             it.push(("generics", jlist(&gnames)));
             it.push(("mir", cx.body(did, body)));
+            if is_fn {
+                let proms = tcx.promoted_mir(did);
+                if !proms.is_empty() {
+                    let pv: Vec<String> = proms.iter().map(|pb| cx.body(did, pb)).collect();
+                    it.push(("promoted", jlist(&pv)));
+                }
+            }
             out.push_str(&jobj(&it));
             out.push('\n');
             nfn += 1;
